@@ -78,6 +78,9 @@ def main(argv):
         if a.prop == "setup":
             from . import setup
             return setup.run()
+        if a.prop == "selftest":
+            from . import selftest
+            return selftest.run(["--mutants"] if a.replay == "mutants" else [])
         if a.replay:
             # a replay file is self-contained (input, expectation, observation); the checks are
             # deterministic for a seed, so re-running the property reproduces the violation in it
